@@ -34,7 +34,7 @@ ASSUMPTIONS = [
     "the baseline is what a fresh evaluator in a fresh process reports for the same input and configuration",
     "module-level / default-argument containers that change through use are counted in the evidence but are not violations by themselves (a cache that changes no result is allowed)",
 ]
-BUDGET = {"quick": 300, "thorough": 3000}
+BUDGET = {"quick": 300, "thorough": 4200}
 
 X = [
     (np.array([[1, 1, 0, 0, 0], [0, 0, 2, 2, 2], [3, 0, 0, 0, 0]], dtype=np.uint8), np.array([[1, 1, 1, 0, 0], [0, 0, 2, 2, 0], [0, 0, 0, 3, 3]], dtype=np.uint8)),
